@@ -86,7 +86,8 @@ def gen_case(rng, tier, idx):
     rows = streams.make_rows(rng, n, rng.choice(["walk", "walk", "flat_runs", "spiky"]), step, mode, tf_s, max_gap_buckets=8)
     cut1 = rng.randint(n // 3, n - 10)
     ops = [rng.choice(["purge", "recalculate", "remove", "purge+calc"]) for _ in range(rng.randint(1, 3))]
-    return {"cfgs": cfgs, "pair_kind": kind, "rows": rows, "tf": tf, "cut1": cut1, "ops": ops, "chunk": rng.choice([1, 1, 3, 7])}
+    return {"cfgs": cfgs, "pair_kind": kind, "rows": rows, "tf": tf, "cut1": cut1, "ops": ops, "chunk": rng.choice([1, 1, 3, 7]),
+            "shared_list": tf is None and rng.random() < 0.25}
 
 
 def col(hx, name):
@@ -107,7 +108,70 @@ def cls_of(c):
     return c["cls"] if c["cls"] != "Amorph" else f"Amorph:{c['analysis']}"
 
 
+def run_shared_list(case):
+    """Standalone indicators registered on one shared candle list (no Hexital): purge()/recalculate() of one must leave the other alone."""
+    cfgs, rows = case["cfgs"], case["rows"]
+    stats = {"pair_kinds": [case["pair_kind"]], "modes": {"shared-list": 1}}
+    viol = []
+    names = [configs.build(c).name for c in cfgs]
+    if len(set(names)) != len(names):
+        return {"violations": [], "nontrivial": False, "stats": {"skipped_equal_names": 1}}
+    nontrivial = False
+    try:
+        for t, tcfg in enumerate(cfgs):
+            alone = configs.build(tcfg, candles=rows_to_candles(rows))
+            alone.calculate()
+            want = [vars(c)["indicators"].get(alone.name) for c in alone.candles]
+            cs = rows_to_candles(rows)
+            inds = [configs.build(c, candles=cs) for c in cfgs]
+            for i in inds:
+                i.calculate()
+            target = inds[t]
+            pair = f"{cls_of(tcfg)}<-{'+'.join(sorted(cls_of(c) for k, c in enumerate(cfgs) if k != t))}"
+
+            def col():
+                return [vars(c)["indicators"].get(target.name) for c in cs]
+
+            stats["columns_compared"] = stats.get("columns_compared", 0) + 1
+            if not same(col(), want):
+                viol.append({"monitor": "presence-twin", "sig": f"C13|presence|{pair}", "detail": f"{target.name} on a shared list differs from {target.name} alone"})
+                break
+            for k, op in enumerate(case["ops"]):
+                other = inds[(t + 1 + k) % len(inds)]
+                if other is target:
+                    continue
+                if op in ("purge", "remove"):
+                    other.purge()
+                elif op == "recalculate":
+                    other.recalculate()
+                else:
+                    other.purge()
+                    other.calculate()
+                stats["ops_checked"] = stats.get("ops_checked", 0) + 1
+                stats["columns_compared"] += 1
+                if not same(col(), want):
+                    i = next(i for i in range(len(want)) if not same(col()[i], want[i]))
+                    viol.append({"monitor": "maintenance-aimed-at-other", "sig": f"C13|{op}|{pair}",
+                                 "detail": f"(shared list, no Hexital) {op} of {other.name} changed {target.name} at candle {i}: {short(want[i], 150)} -> {short(col()[i], 150)}"})
+                    break
+            if viol:
+                break
+            target.calculate()
+            if not same(col(), want):
+                viol.append({"monitor": "continue-after-maintenance", "sig": f"C13|after-continue|{pair}", "detail": f"(shared list) {target.name} differs after maintenance on the others and calculate()"})
+                break
+            if any(v is not None and v != {} for v in want):
+                nontrivial = True
+    except Exception as e:
+        import traceback
+        viol.append({"monitor": "exception", "sig": f"C13|raises|{case['pair_kind']}|{type(e).__name__}", "detail": (repr(e) + traceback.format_exc()[-400:])[:700]})
+    return {"violations": viol, "nontrivial": nontrivial, "stats": stats,
+            "sample": {"cfgs": cfgs, "names": names, "pair_kind": case["pair_kind"], "mode": "shared-list", "ops": case["ops"], "n_rows": len(rows)}}
+
+
 def run_case(case):
+    if case.get("shared_list"):
+        return run_shared_list(case)
     cfgs, rows, tf, cut1 = case["cfgs"], case["rows"], case["tf"], case["cut1"]
     kw = {"timeframe": tf} if tf else {}
     stats = {"pair_kinds": [case["pair_kind"]], "tfkinds": {"collapsing" if tf else "base": 1}}
